@@ -7,7 +7,7 @@ from tools import lat, vlib
 class C01(vlib.Spec):
     model_vo = ["theories/Lattice/Univ.vo"]
     props_vo = "theories/Props/C01.vo"
-    theorems = ["C01_max"]
+    theorems = ["C01_laws", "C01_congruence", "C01_dom_needs_total_refuted"]
     crate, group, binary = "h_lattices", "light", "h_lattices"
     imports = "From HV Require Import Lattice.Univ."
     pred = "C01_holds_b"
